@@ -49,18 +49,18 @@ Put(f, k, v) == [x \in DOMAIN f \cup {k} |-> IF x = k THEN v ELSE f[x]]
 All4 == {"read", "write", "poll", "handle"}
 
 \* after stop.end only what a recorded finding explains may still happen
-AfterEndOK(c) == stop # "end" \/ ("unregistered_not_closed" \in Dev /\ c \notin wasReg)
+\* (connections that were not in srv.clients when Stop looked are neither closed nor awaited by it)
+AfterEndOK(c) == stop # "end" \/ ("unregistered_not_closed" \in Dev /\ c \notin atBegin)
 
 Init == /\ l = 1 /\ exits = <<>> /\ reg = {} /\ wasReg = {} /\ closed = {} /\ owner = <<>> /\ stop = "no" /\ atBegin = {}
 
 Reset ==
   /\ Is("reset")
-  \* end of the previous storm: Stop returned nil there => stop.end was seen, every connection that registered is closed,
-  \* and (unless the finding is recorded) so is every other connection
+  \* end of the previous storm (taken after every client closed its socket): Stop returned nil there => stop.end was
+  \* seen and every connection is unregistered and closed
   /\ l > 1 /\ Trace[l - 1].e # "reset" =>
        /\ ev.stopok => stop = "end"
-       /\ ev.stopok => wasReg \subseteq closed
-       /\ (ev.stopok /\ "unregistered_not_closed" \notin Dev) => DOMAIN exits \subseteq closed
+       /\ ev.stopok => (reg = {} /\ DOMAIN exits \subseteq closed)
   /\ exits' = <<>> /\ reg' = {} /\ wasReg' = {} /\ closed' = {} /\ owner' = <<>> /\ stop' = "no" /\ atBegin' = {}
 
 Exit ==
@@ -89,6 +89,7 @@ Unregister ==
   /\ Is("unregister")
   /\ ev.conn \in reg
   /\ All4 \subseteq Ex(ev.conn)                              \* internalClose runs after both joins
+  /\ AfterEndOK(ev.conn)
   /\ reg' = reg \ {ev.conn}
   /\ owner' = Put(owner, ev.cid, Own(ev.cid) \ {ev.conn})
   /\ UNCHANGED <<exits, wasReg, closed, stop, atBegin>>
